@@ -180,7 +180,7 @@ prop("C23",
 
 
 prop("C01",
-     units=["hist", "queue", "arms", "record", "cutcf", "order"],
+     units=["hist", "queue", "arms", "record", "cutcf", "order", "sheetrestore"],
      scans=["history-writers"],
      level="proof",
      claim="undo hands back exactly the most recent not-yet-undone list (History), UserModel::undo applies it through apply_undo_diff_list and queues it, and for the "
